@@ -46,3 +46,34 @@ def emit(repo, spec, H):  # noqa: F811  (tables first, then call orders)
         out.append("(* %s: static table %s[%d] *)" % (f, name, len(vals)))
         out.append("Definition %s : list Z := [%s]." % (name, "; ".join(H.zlit(v) for v in vals)))
     return out + _emit_calls(repo, spec, H)
+
+
+def _exprs(repo, spec, H):
+    """spec["c12_exprs"] = [[file, function, defname, [[c_lvalue, coq_param], ...], regex_with_one_group], ...]
+    The (single) match of the regex inside the preprocessed body of the function is an integer expression over the
+    listed C lvalues; it is translated with the stock expression translator into
+      Definition <defname> (<params> : Z) : Z := ...
+    so that an edit of that expression changes the generated definition (and breaks the proofs about it)."""
+    out = []
+    for f, fn, name, params, rx in spec.get("c12_exprs", []):
+        body = H.func_body(H.src(repo, f), fn)
+        ms = re.findall(rx, body, flags=re.S)
+        if len(ms) != 1:
+            raise ValueError("%s: expression for %s matched %d times in %s" % (f, name, len(ms), fn))
+        e = " ".join(ms[0].split())
+        txt = e
+        for c, q in params:
+            txt = txt.replace(c, q)
+        env = {}
+        env.update(H.defines(repo, f))
+        term = H.P(txt, [q for _, q in params], env).ternary_all()
+        out.append("(* %s: %s: %s *)" % (f, fn, e))
+        out.append("Definition %s %s : Z := %s." % (name, " ".join("(%s : Z)" % q for _, q in params), term))
+    return out
+
+
+_emit_tables_calls = emit
+
+
+def emit(repo, spec, H):  # noqa: F811
+    return _emit_tables_calls(repo, spec, H) + _exprs(repo, spec, H)
